@@ -71,6 +71,7 @@ type c10Env struct {
 	ReqTLS   bool
 	Override bool
 	OrigMap  bool
+	Quar     bool
 }
 
 type c10Case struct {
@@ -85,6 +86,7 @@ func c10Meta(e c10Env) *module.MsgMetadata {
 		OriginalFrom:       e.From,
 		SMTPOpts:           smtp.MailOptions{UTF8: e.UTF8, RequireTLS: e.ReqTLS},
 		TLSRequireOverride: e.Override,
+		Quarantine:         e.Quar,
 		Conn:               &module.ConnState{Proto: "ESMTPSA", Hostname: "client.example", AuthUser: c10User, AuthPassword: c10Secret},
 	}
 	if e.OrigMap {
@@ -263,6 +265,9 @@ func c10Run(scratch string, c c10Case) (string, string) {
 		if m.SMTPOpts.UTF8 != c.Env.UTF8 || m.SMTPOpts.RequireTLS != c.Env.ReqTLS {
 			return "C10:smtp-options", fmt.Sprintf("%s: options %+v, accepted UTF8=%v RequireTLS=%v", where, m.SMTPOpts, c.Env.UTF8, c.Env.ReqTLS)
 		}
+		if m.Quarantine != c.Env.Quar {
+			return "C10:quarantine-flag", fmt.Sprintf("%s: quarantine %v, set at acceptance %v", where, m.Quarantine, c.Env.Quar)
+		}
 		if m.TLSRequireOverride != c.Env.Override {
 			return "C10:tls-required-override", fmt.Sprintf("%s: override %v, accepted %v", where, m.TLSRequireOverride, c.Env.Override)
 		}
@@ -301,6 +306,11 @@ func c10FirstDiff(a, b []byte) int {
 // c10Submit is qhSubmit with an explicit body buffer.
 func c10Submit(q *Queue, m qhMsg, buf buffer.Buffer) (string, error) {
 	meta := m.Meta.DeepCopy()
+	// As the SMTP endpoint does: the override (TLS-Required: No header) and the
+	// quarantine verdict of body checks become known at DATA time only, i.e.
+	// they are set on the message metadata after Start and the RCPTs.
+	override, quarantine := meta.TLSRequireOverride, meta.Quarantine
+	meta.TLSRequireOverride, meta.Quarantine = false, false
 	d, err := q.Start(nil, meta, m.From)
 	if err != nil {
 		return "start", err
@@ -310,6 +320,7 @@ func c10Submit(q *Queue, m qhMsg, buf buffer.Buffer) (string, error) {
 			return "rcpt", err
 		}
 	}
+	meta.TLSRequireOverride, meta.Quarantine = override, quarantine
 	if err := d.Body(nil, m.Header, buf); err != nil {
 		d.Abort(nil)
 		return "body", err
@@ -352,8 +363,8 @@ func TestVerifC10(t *testing.T) {
 	envs := []c10Env{}
 	for _, from := range []string{"sender@example.com", "", "\"quo ted\"@example.com", "s@пример.рф"} {
 		for _, rc := range [][]string{{"a@example.org"}, {"b@пример.рф", "\"we ird\"@example.org"}} {
-			for mask := 0; mask < 16; mask++ {
-				envs = append(envs, c10Env{From: from, Rcpts: rc, UTF8: mask&1 != 0, ReqTLS: mask&2 != 0, Override: mask&4 != 0, OrigMap: mask&8 != 0})
+			for mask := 0; mask < 32; mask++ {
+				envs = append(envs, c10Env{From: from, Rcpts: rc, UTF8: mask&1 != 0, ReqTLS: mask&2 != 0, Override: mask&4 != 0, OrigMap: mask&8 != 0, Quar: mask&16 != 0})
 			}
 		}
 	}
@@ -384,7 +395,7 @@ func TestVerifC10(t *testing.T) {
 	rec = func(prefix string, depth int) {
 		if depth > 0 {
 			for _, h := range hists {
-				do(c10Case{Header: prefix, Body: "one-line", Env: envs[17], History: h})
+				do(c10Case{Header: prefix, Body: "one-line", Env: envs[5], History: h})
 			}
 		}
 		if depth == H {
